@@ -464,6 +464,87 @@ Section AdvP.
   Proof. split; reflexivity. Qed.
 End AdvP.
 
+(* ================================================================ bundles used by props/C19.v *)
+Theorem all_predict_pure (P N D M : Type) :
+    (forall (train : P -> D -> M) s,
+        fst (s_step train s Predict) = s /\
+        snd (s_step train (fst (s_step train s Predict)) Predict) = snd (s_step train s Predict)) /\
+    (forall (train : P -> D -> M) s,
+        fst (gs_step train s Predict) = s /\
+        snd (gs_step train (fst (gs_step train s Predict)) Predict) = snd (gs_step train s Predict)) /\
+    (forall (nu_of : P -> D -> N) (train : P -> N -> D -> M) s,
+        fst (eg_step nu_of train s Predict) = s /\
+        snd (eg_step nu_of train (fst (eg_step nu_of train s Predict)) Predict)
+          = snd (eg_step nu_of train s Predict)) /\
+    (forall (width : D -> Z) (train : P -> D -> M) s,
+        fst (c_step width train s Predict) = s /\
+        snd (c_step width train (fst (c_step width train s Predict)) Predict)
+          = snd (c_step width train s Predict)) /\
+    (forall (ws : P -> bool) (init_net : P -> D -> M) (train_from : P -> M -> D -> M) s,
+        fst (adv_step ws init_net train_from s Predict) = s /\
+        snd (adv_step ws init_net train_from (fst (adv_step ws init_net train_from s Predict)) Predict)
+          = snd (adv_step ws init_net train_from s Predict)).
+Proof.
+  split; [|split; [|split; [|split]]].
+  - intros train s. apply s_predict_pure.
+  - intros train s. apply g_predict_pure.
+  - intros nu_of train s. apply e_predict_pure.
+  - intros width train s. apply c_predict_pure.
+  - intros ws init_net train_from s. apply a_predict_pure.
+Qed.
+
+Theorem all_pickle_faithful (P N D M : Type) :
+    (forall (train : P -> D -> M) s,
+        fst (s_step train s Pickle) = s /\ snd (s_step train s Pickle) = mkObs true (s_par s) (s_fit s) None) /\
+    (forall (train : P -> D -> M) s,
+        fst (gs_step train s Pickle) = s /\ snd (gs_step train s Pickle) = mkObs true (g_par s) (g_fit s) None) /\
+    (forall (nu_of : P -> D -> N) (train : P -> N -> D -> M) s,
+        fst (eg_step nu_of train s Pickle) = s /\
+        snd (eg_step nu_of train s Pickle) = mkObs true (e_params s) (e_fit s) None) /\
+    (forall (width : D -> Z) (train : P -> D -> M) s,
+        fst (c_step width train s Pickle) = s /\
+        snd (c_step width train s Pickle) = mkObs true (c_par s) (c_fit s) None).
+Proof. repeat split. Qed.
+
+Theorem all_clone_fresh (P D M : Type) :
+    (forall (train : P -> D -> M) s,
+        fst (s_step train s Clone) = s_init (s_par s) /\
+        snd (s_step train s Clone) = mkObs true (s_par s) None None) /\
+    (forall (train : P -> D -> M) s,
+        snd (gs_step train s Clone) = mkObs true (g_par s) None None /\
+        forall h, trace (gs_step train) (fst (gs_step train s Clone)) h
+                  = trace (gs_step train) (g_init (g_par s)) h) /\
+    (forall (width : D -> Z) (train : P -> D -> M) s,
+        fst (c_step width train s Clone) = c_init (c_par s) /\
+        snd (c_step width train s Clone) = mkObs true (c_par s) None None) /\
+    (forall (ws : P -> bool) (init_net : P -> D -> M) (train_from : P -> M -> D -> M) s,
+        fst (adv_step ws init_net train_from s Clone) = a_init (a_par s) /\
+        snd (adv_step ws init_net train_from s Clone) = mkObs true (a_par s) None None).
+Proof.
+  split; [|split; [|split]].
+  - intros train s. apply s_clone_fresh.
+  - intros train s. apply g_clone_fresh.
+  - intros width train s. apply c_clone_fresh.
+  - intros ws init_net train_from s. apply a_clone_fresh.
+Qed.
+
+Theorem c_params_constant_quiet (P D M : Type) (width : D -> Z) (train : P -> D -> M) (p : P) (w : Z)
+        (h : list (op D)) :
+    Forall (fun o => o_params o = p) (trace (c_step width train) (c_init p) h) /\
+    (Forall (same_width width w) h -> Forall quiet (trace (c_step width train) (c_init p) h)).
+Proof. split; [apply c_params_constant | apply c_quiet]. Qed.
+
+Theorem e_nu_overwritten_ex (P N D M : Type) (nu_of : P -> D -> N) (train : P -> N -> D -> M) (p : P) (d : D) :
+    exists h : list (op D),
+      e_params (run (eg_step nu_of train) (e_init p None) h) <> e_params (@e_init P N M p None).
+Proof. exists [Fit d]. exact (e_nu_overwritten P N D M nu_of train p d). Qed.
+
+Theorem e_model_history_dependent_ex :
+  exists (h : list (op Z)) (d : Z),
+    o_model (after (eg_step sym_nu_of sym_train_eg) (e_init 0 None) h (Fit d)) <>
+    o_model (after (eg_step sym_nu_of sym_train_eg) (e_init 0 None) [] (Fit d)).
+Proof. exists [Fit 1], 2. exact e_model_history_dependent. Qed.
+
 (* ================================================================ the repaired defects, refuted
    on the OLD switches of the same definitions (free instance, computed witnesses) *)
 
